@@ -297,7 +297,8 @@ pub fn plan_runs(seed: u64, n: usize) -> Vec<RunCfg> {
     let mut rng = Rng::new(seed ^ 0x72_756e_73);
     let mut v = vec![RunCfg { entropy_seed: 0, extra_env: vec![] }];
     for i in 1..n {
-        let extra_env = if i % 2 == 0 { noisy_env(&mut rng) } else { vec![] };
+        // with only two runs the second one carries the noisy environment
+        let extra_env = if i % 2 == 0 || n == 2 { noisy_env(&mut rng) } else { vec![] };
         v.push(RunCfg { entropy_seed: 1 + rng.next_u64() % 0xFFFF_FFFF, extra_env });
     }
     v
@@ -329,13 +330,13 @@ pub fn run(cfg: &Cfg, corpus: &Corpus) -> Result<TierResult, String> {
     let shim = cfg.build_dir.join("simhost-min.so");
     let base = cfg.build_dir.join("rustc-tier");
     let thorough = cfg.tier == "thorough";
-    let n_runs: usize = std::env::var("SIM_RUSTC_RUNS").ok().and_then(|s| s.parse().ok()).unwrap_or(if thorough { 8 } else { 3 });
+    let n_runs: usize = std::env::var("SIM_RUSTC_RUNS").ok().and_then(|s| s.parse().ok()).unwrap_or(if thorough { 8 } else { 2 });
     let runs = plan_runs(cfg.seed, n_runs);
     let mut summary = Vec::new();
     let mut violation = None;
     let mut compiles = 0;
-    // quick: one back-end, chosen by the seed; thorough: both
-    let backends: Vec<Backend> = if thorough { vec![Backend::Syn1, Backend::Syn2] } else if cfg.seed % 2 == 0 { vec![Backend::Syn1] } else { vec![Backend::Syn2] };
+    // both back-ends in both tiers (code under cfg(feature = "syn2") exists only in one of them)
+    let backends: Vec<Backend> = vec![Backend::Syn1, Backend::Syn2];
     for backend in backends {
         // the panicking inputs ride in the `rej` crate: both only produce diagnostics
         let mut rej_items = sel.rej.clone();
